@@ -787,6 +787,7 @@ PROPS["C20"] = dict(
     streams={
         "fault": dict(runner="C20_run", in_t="C20_in", out_t="C20_out", shard=400),
         "ti": dict(runner="C20_ti_run", in_t="C20_ti_in", out_t="C20_ti_out", shard=100),
+        "order": dict(runner="C20_order_run", in_t="C20_order_in", out_t="C20_order_out", shard=40),
     },
     n_quick=2000, n_thorough=60000,
     harness_timeout=3000,
